@@ -356,6 +356,7 @@ pub fn run(e: &'static Engine) {
          with shift-and-reduce multiplication. Non-trivial: basis vectors, or blocks with zero bytes among non-zero ones; distinct by \
          (content, degree).",
     );
+    e.extend_rule("part division_histories: first call, n calls that change the generator every time (dividends all-zero / last byte / repeated / generated), last call, n around 2^k; symbol-level part also over block look-alikes (padding look-alikes, near-copies, generator multiples).");
     e.assume("hook: verif_hooks::division / generator are plain re-exports of polynomials::division / hardcode::get_polynomial");
     crate::engine::run_regress(e, &|c, o| replay(e, c, o));
     let prs = pairs();
